@@ -386,23 +386,44 @@ def run(ctx):
            "g_dispatch_initialized is set after the last slot assignment",
            len(fl) == 1 and all(_order(init)[n.i] < _order(init)[fl[0].i] for _, _, cap, n in assigns))
 
-    # wrappers
+    # wrappers: each public entry point is executed abstractly with the table seeded (every slot holds a
+    # marker kernel) and the initialiser hooked: with the table not yet built the initialiser runs first,
+    # then exactly the slot of that name is called with the wrapper's own arguments in order
+    from ..rules import sem
     nw = 0
+    rname = "carquet_simd_dispatch_t" if "carquet_simd_dispatch_t" in P.records else "carquet_simd_dispatch"
+    so_ = sem.field_offsets(P, rname)
     for s in slots:
         w = P.fn_opt("carquet_dispatch_" + s, DP)
         if w is None:
             continue
         nw += 1
-        calls = [c for c in w.body.walk() if c.k == "CallExpr" and not c.callee and c.c[0].strip_casts().k == "MemberExpr"]
-        ok = len(calls) == 1 and calls[0].c[0].strip_casts().name == s
-        if ok:
-            args = calls[0].args()
-            ok = len(args) == len(w.params) and all(
-                a.strip_casts().k == "DeclRefExpr" and a.strip_casts().name == p["n"] for a, p in zip(args, w.params))
-        inits = w.calls("carquet_simd_dispatch_init")
-        ok = ok and len(inits) == 1 and w.cfg.node_dominates(inits[0], calls[0]) is not None
-        ctx.ob("R5.dispatch", "wrapper|%s|%s" % (DP, s), P.where(w.body),
-               "carquet_dispatch_%s initialises the table and calls slot %s with its own parameters in order" % (s, s), ok)
+        bad = None
+        try:
+            for ready in (0, 1):
+                heap0 = {("g:g_dispatch", off): sem.FuncRef("kernel:" + nm) for nm, off in so_.items()}
+                heap0[("g:g_dispatch_initialized", 0)] = ready
+                args = [sem.Ptr("a%d" % i, 0, 1) if "*" in p["t"] else 1000 + i for i, p in enumerate(w.params)]
+
+                def init_hook(ev, a, it):
+                    ev.append("init")
+                    it.heap[("g:g_dispatch_initialized", 0)] = 1
+                hooks = {"carquet_simd_dispatch_init": init_hook}
+                for nm in so_:
+                    hooks["kernel:" + nm] = (lambda ev, a, it, nm=nm: ev.append(("kernel", nm) + tuple(
+                        (x.base, x.off) if isinstance(x, sem.Ptr) else x for x in a)) or 0)
+                ret, ev, heap = sem.run(P, w, args, heap0=heap0, hooks=hooks, single=True, max_forks=16,
+                                        globals_={"g_dispatch": P.record(rname)["size"], "g_dispatch_initialized": 4})
+                want = ("kernel", s) + tuple((x.base, x.off) if isinstance(x, sem.Ptr) else x for x in args)
+                ks = [e for e in ev if e != "init"]
+                if ks != [want] or (not ready and ev[:1] != ["init"]):
+                    bad = bad or "table %s: does %s, expected %s" % ("built" if ready else "not built", ev, (["init"] if not ready else []) + [want])
+            ctx.ob("R5.dispatch", "wrapper|%s|%s" % (DP, s), P.where(w.body),
+                   "carquet_dispatch_%s initialises the table when needed and calls slot %s with its own parameters in order "
+                   "(abstract execution)" % (s, s), bad is None, bad or "")
+        except (sem.Inconclusive, KeyError) as ex:
+            ctx.inconclusive("R5.dispatch", "wrapper|%s|%s" % (DP, s), P.where(w.body), "abstract execution of the wrapper",
+                             "%s: %s" % (type(ex).__name__, ex))
     ctx.floor("C15 dispatch wrappers", nw, 15)
 
     # extern prototypes of kernels equal their definitions
